@@ -13,6 +13,18 @@ const c35PkgDir = "telegram/message/entity"
 
 func oneLine(s string) string { return strings.Join(strings.Fields(s), " ") }
 
+// bodyNoComments is the canonical one-line source of a function body without `//` comments.
+func bodyNoComments(f *Facts, dir, name string) string {
+	var out []string
+	for _, l := range strings.Split(f.FuncSrc(dir, name), "\n") {
+		if i := strings.Index(l, "//"); i >= 0 {
+			l = l[:i]
+		}
+		out = append(out, l)
+	}
+	return oneLine(strings.Join(out, " "))
+}
+
 // C35EntityFacts are the facts shared by C35 and C37 (same builder model).
 func C35EntityFacts(f *Facts) {
 	// --- utf16RuneLen: the two local constants and the shape of the test
@@ -69,8 +81,35 @@ func C35EntityFacts(f *Facts) {
 		f.Raw("def maxRune : Nat := " + maxR + " -- entity.utf16RuneLen: const maxRune")
 	}
 	f.Bool("runeLenShape", shape, "utf16RuneLen is `if surrSelf <= v && v <= maxRune { return 2 }; return 1`")
-	f.Bool("computeLengthShape", oneLine(f.FuncSrc(c35PkgDir, "ComputeLength")) == "{ n := 0 for _, v := range s { n += utf16RuneLen(v) } return n }",
+	f.Bool("computeLengthShape", bodyNoComments(f, c35PkgDir, "ComputeLength") == "{ n := 0 for _, v := range s { n += utf16RuneLen(v) } return n }",
 		"ComputeLength sums utf16RuneLen over the runes of s")
+	// --- utf16RuneLen and one iteration of clampEntities, translated (harness/hc/c35_translate.go)
+	C35RuneLenFacts(f, c35PkgDir)
+	C35ClampFacts(f, c35PkgDir)
+	f.Bool("computeLengthBytesShape", bodyNoComments(f, c35PkgDir, "ComputeLengthBytes") == "{ var i int for i < len(s) { v, size := utf8.DecodeRune(s[i:]) i += size n += utf16RuneLen(v) } return n }",
+		"ComputeLengthBytes sums utf16RuneLen over the runes decoded from s")
+	// fixEntities cuts the message and clamps to the UTF-16 length of the CUT message
+	clampArg := ""
+	if fd := f.FuncDecl(c35PkgDir, "Builder.fixEntities"); fd != nil && fd.Body != nil {
+		ast.Inspect(fd.Body, func(n ast.Node) bool {
+			bs, ok := n.(*ast.BlockStmt)
+			if !ok {
+				return true
+			}
+			for i := 0; i+1 < len(bs.List); i++ {
+				if oneLine(f.Src(bs.List[i])) != "msg = msg[:offset+len(trimmed)]" {
+					continue
+				}
+				if es, ok := bs.List[i+1].(*ast.ExprStmt); ok {
+					if c, ok := es.X.(*ast.CallExpr); ok && len(c.Args) == 2 && oneLine(f.Src(c.Fun)) == "clampEntities" && oneLine(f.Src(c.Args[1])) == "entities" {
+						clampArg = oneLine(f.Src(c.Args[0]))
+					}
+				}
+			}
+			return true
+		})
+	}
+	f.Bool("clampToCutMessage", clampArg == "ComputeLength(msg)", "fixEntities: `msg = msg[:offset+len(trimmed)]` is followed by clampEntities("+clampArg+", entities)")
 	// --- the comparator used by Complete's sort (translator: harness/hc/c36_less.go)
 	C36LessFacts(f, c35PkgDir)
 	// --- fixEntities trims with strings.TrimRightFunc(.., unicode.IsSpace); Complete = fixEntities + SortEntities
